@@ -47,6 +47,11 @@ func (c *ccase) trigger() string {
 	return c.Gen.Endpoint + "|" + shapeClass(c.Gen.QueryShape) + "|" + strings.Join(c.Gen.Specials, ",") + "|" + c.DB.class() + "|" + c.Client
 }
 
+// wedgeKey is the coarser input class used to avoid re-running a confirmed wedge (17 s each).
+func (c *ccase) wedgeKey() string {
+	return "wedge:" + c.Gen.Endpoint + "|" + strings.Join(c.Gen.Specials, ",") + "|" + c.DB.Mode + fmt.Sprint(c.DB.Target) + "|" + c.Client
+}
+
 // shapeClass abstracts the query shape for trigger keys (metric vs log etc.).
 func shapeClass(s string) string {
 	switch {
